@@ -1,6 +1,8 @@
 """C11 — calendar conversions: case generators and configuration."""
 ID = "C11"
 LEVEL = "proof"
+# translator tie: these kernels are regenerated from /repo on every run and re-proved equal to the model (coq/C11/GenEquiv.v)
+TRANSLATE = [("translate/kernels_chrono.json", "coq/Gen/Gen_chrono.v")]
 HARNESSES = [{"name": "main", "src": "harness.cpp", "flags": ["-O1", "-DTETL_ENABLE_CONTRACT_CHECKS=1"]}]
 
 DAY_LO, DAY_HI = -12687428, 11248737
